@@ -34,7 +34,7 @@ def run(pid, tier, seed):
         san.append((name, ev if ev.get("e") in ("Sanitizer", "Crash") else None, p))
 
     def model(leaky):
-        cfg = os.path.join(vlib.cfg_dir(), "IprLedgerMC-%s-%s.cfg" % (pid, leaky))
+        cfg = os.path.join(vlib.cfg_dir(), "IprLedgerMC-%s-%s-%d.cfg" % (pid, leaky, os.getpid()))
         vlib.write_cfg(cfg, spec="Spec", constants={"Ids": tla_set([1, 2, 3, 4]), "Leaky": leaky}, invariants=["CanEnd"])
         return vlib.tlc("IprLedgerMC", cfg, workers=2, timeout=600)
 
